@@ -10,8 +10,9 @@ import (
 
 func mkDcache(dip *inode.Inode, op *fstxn.FsTxn) {
 	dip.Dcache = dcache.MkDcache()
-	Apply(dip, op, 0, dip.Size, 100000000,
-		func(ip *inode.Inode, name string, inum common.Inum, off uint64) {
+	// names and inode numbers only: no need to lock the children
+	ApplyEnts(dip, op, 0, ^uint64(0),
+		func(name string, inum common.Inum, off uint64) {
 			dip.Dcache.Add(name, inum, off-DIRENTSZ)
 		})
 }
